@@ -941,6 +941,56 @@ package badger
 //@   light
 //@   assert[stored-under-master-key] before call storeDataKey : arg1 == kr.opt.EncryptionKey && arg2 == dk && dk.KeyId == kr.nextKeyID
 
+// ---- values in the value log (C06, C10) ----
+
+// logFile.read returns exactly the bytes [Offset, Offset+Len) of the mapped file, or ErrEOF
+// when that range does not lie inside both the mapping and the written size.
+//@ func (*logFile).read
+//@   props C06 C16
+//@   requires lf != nil && lf.MmapFile != nil
+//@   domain uint64(p.Offset) + uint64(p.Len) < 1<<32
+//@   ensures[in-range] err == nil ==> len(buf) == int(p.Len) && sameRegion(buf, lf.Data) && (forall i int :: 0 <= i && i < int(p.Len) ==> buf[i] == lf.Data[int(p.Offset) + i])
+//@   ensures[out-of-range] int64(p.Offset) >= int64(len(lf.Data)) || int64(p.Offset) + int64(p.Len) > int64(len(lf.Data)) || int64(p.Offset) + int64(p.Len) > int64(lf.size.v) ==> err == y.ErrEOF && buf == nil
+//@   ensures[otherwise-ok] !(int64(p.Offset) >= int64(len(lf.Data)) || int64(p.Offset) + int64(p.Len) > int64(len(lf.Data)) || int64(p.Offset) + int64(p.Len) > int64(lf.size.v)) ==> err == nil
+//@   assigns nothing
+
+//@ func (*valueLog).readValueBytes
+//@   props C06
+//@   light
+//@   assert[file-of-pointer] before call getFileRLocked : arg1 == vp
+//@   assert[bytes-at-pointer] before call read : arg0 == ret0(getFileRLocked#1) && arg1 == vp
+//@   assert[as-read] before return#2 : result0 == ret0(read#1) && result1 == ret0(getFileRLocked#1) && result2 == ret1(read#1)
+
+// Read: the record at the pointer is fetched, its checksum verified when asked for, its header
+// decoded from the start of the record, key and value decrypted with the IV of the pointer's
+// offset, and the value is the vlen bytes that follow the klen key bytes.
+//@ func (*valueLog).Read
+//@   props C06 C16
+//@   light
+//@   assert[read-at-pointer] before call readValueBytes : arg1 == vp
+//@   assert[header-of-record] before call Decode : arg1 == ret0(readValueBytes#1) && ret2(readValueBytes#1) == nil
+//@   assert[checksum-when-asked] before call Decode : vlog.opt.VerifyValueChecksum ==> called(Sum32#1) && called(BytesToU32#1) && ret(Sum32#1) == ret(BytesToU32#1)
+//@   assert[decrypt-at-pointer-offset] before call decryptKV : arg0 == ret1(readValueBytes#1) && arg2 == vp.Offset
+//@   assert[value-after-key] before return#6 : result2 == nil && (uint64(h.klen) + uint64(h.vlen) < 1<<32 ==> len(result0) == int(h.vlen))
+
+// write: an entry that stays inline gets an empty pointer; every other entry is encoded, with
+// the transaction bits cleared, at the current write offset of the current file, its pointer
+// (file, offset, encoded length) is appended in entry order, and the entry's own meta is
+// restored; each request ends with exactly one pointer per entry.
+//@ func (*valueLog).write
+//@   props C06 C16 C10
+//@   light
+//@   assert[decision-per-entry] before call skipVlogAndSetThreshold : arg0 == e && e == b.Entries[j]
+//@   assert[encoded-at-pointer] before call encodeEntry : arg0 == curlf && arg2 == e && arg3 == p.Offset && p.Fid == curlf.fid && p.Offset == ret(woffset#1) && e.meta&(bitTxn|bitFinTxn) == 0
+//@   assert[meta-restored-and-length-recorded] before call write : e.meta == tmpMeta && p.Len == uint32(ret0(encodeEntry#1)) && arg0 == buf
+//@   assert[validated-first] before call RLock : called(validateWrites#1) && ret(validateWrites#1) == nil
+
+//@ func (*valueLog).write.write
+//@   props C06 C16
+//@   light
+//@   assert[at-reserved-range] before call copy : arg1 == ret(Bytes#1) && uint32(start) + n == endOffset && endOffset == ret(Add#1) && n == uint32(ret(Len#2))
+//@   assert[size-published] before call Store : arg1 == endOffset
+
 // ---- reading log records back (C16) ----
 
 // safeRead.Entry: header, key and value pass through the hashing reader, the stored checksum
